@@ -509,8 +509,22 @@ where
         // classes
         let pre_copies = self.tree.verif_copies();
         let expired_before = pre_copies.iter().filter(|(_, _, v)| v.exp < t).count();
+        {
+            let mut per_place = [0u32; 64];
+            for (p, _, _) in &pre_copies {
+                if *p < 64 {
+                    per_place[*p] += 1;
+                }
+            }
+            if per_place.iter().any(|c| *c >= 17) {
+                self.out.class("chunk_ge_17_entries");
+            }
+        }
         if expired_before > 0 {
             self.out.class("query_with_expired_copies");
+        }
+        if expired_before >= 65 {
+            self.out.class("query_ge_65_expired_copies");
         }
         if self.model.iter().any(|m| m.exp == t) {
             self.out.class("query_t_eq_exp");
